@@ -509,6 +509,14 @@ func (g *gen) havocModifies(n *node, fs *FuncSpec, e *env, st *State) {
 			g.havocHeap(st)
 			continue
 		}
+		if strings.HasPrefix(ml.All, "cells(") {
+			if name, srt, ok := g.cellsVar(ml.All, fs.PkgPath, fs.Imports); ok {
+				g.svFresh(st, name, srt)
+			} else {
+				g.errorf("%s: modifies %s: cannot resolve type", fs.Key, ml.Src)
+			}
+			continue
+		}
 		if ml.All != "" {
 			// T::f
 			parts := strings.SplitN(ml.All, "::", 2)
@@ -527,6 +535,25 @@ func (g *gen) havocModifies(n *node, fs *FuncSpec, e *env, st *State) {
 		}
 		g.havocLoc(n, e, st, ml.E, fs.Key)
 	}
+}
+
+// cellsVar resolves "cells(T)" to the cell map of Go type T.
+func (g *gen) cellsVar(loc, pkgPath string, imports map[string]string) (string, string, bool) {
+	txt := strings.TrimSuffix(strings.TrimPrefix(loc, "cells("), ")")
+	toks, err := lex(txt)
+	if err != nil {
+		return "", "", false
+	}
+	pp := &parser{toks: toks, src: txt}
+	te, err := pp.typeExpr()
+	if err != nil {
+		return "", "", false
+	}
+	xt, err := g.resolveType(te, pkgPath, imports)
+	if err != nil || xt.T == nil {
+		return "", "", false
+	}
+	return cellMapName(xt.T), "(Array Ref " + sortOf(xt.T) + ")", true
 }
 
 func (g *gen) fieldVar(structT types.Type, f string) (string, string, bool) {
